@@ -23,7 +23,8 @@ LIBCLS = {
     'ValueFlow': ('block', 'ValueFlow'), 'FutureSplitMerge': ('block', 'FutureSplitMerge'), 'ShardDescr': ('block', 'ShardDescr'), 'SigPubKey': ('config', 'SigPubKey'),
     'ValidatorDescr': ('config', 'ValidatorDescr'), 'ValidatorSet': ('config', 'ValidatorSet'), 'CatchainConfig': ('config', 'CatchainConfig'),
     'ValidatorInfo': ('block', 'ValidatorInfo'), 'KeyExtBlkRef': ('block', 'KeyExtBlkRef'), 'KeyMaxLt': ('block', 'KeyMaxLt'), 'Counters': ('block', 'Counters'),
-    'CreatorStats': ('block', 'CreatorStats'), 'BlockExtra': ('block', 'BlockExtra'),
+    'CreatorStats': ('block', 'CreatorStats'), 'BlockExtra': ('block', 'BlockExtra'), 'ShardStateUnsplit': ('block', 'ShardStateUnsplit'),
+    'DepthBalanceInfo': ('block', 'DepthBalanceInfo'),
 }
 TAGS = {
     ('AccStatusChange', 'acst_unchanged'): 'unchanged', ('AccStatusChange', 'acst_frozen'): 'frozen', ('AccStatusChange', 'acst_deleted'): 'deleted',
@@ -44,7 +45,7 @@ TAGS = {
 ALIAS = {('ExtBlkRef', 'seq_no'): 'seqno', ('InMsg', 'msg_discard_fin', 'fwd_fee'): 'transit_fee'}
 SINGLE_NO_TYPE = {'StorageUsedShort', 'TrStoragePhase', 'TrCreditPhase', 'TrActionPhase', 'SplitMergeInfo', 'HashUpdate', 'Transaction', 'ImportFees', 'StorageUsed', 'StorageInfo',
                   'StateInit', 'TickTock', 'AccountStorage', 'ShardAccount', 'AccountBlock', 'ShardIdent', 'ExtBlkRef', 'BlkMasterInfo', 'GlobalVersion', 'SigPubKey',
-                  'ValidatorInfo', 'KeyExtBlkRef', 'KeyMaxLt', 'Counters', 'CreatorStats', 'BlockExtra'}
+                  'ValidatorInfo', 'KeyExtBlkRef', 'KeyMaxLt', 'Counters', 'CreatorStats', 'BlockExtra', 'ShardStateUnsplit', 'DepthBalanceInfo'}
 
 
 class Cmp:
